@@ -130,6 +130,14 @@ def main():
     w1, w2 = weights(payload.get('weights', []))
     res['weights'] = w1
     res['weights_cached'] = w2
+    # weight vectors beyond the sizes compared inside Coq (first visit only; evaluated before the spectra are projected)
+    bw = []
+    for (to, fr, hits) in payload.get('bigweights', []):
+        try:
+            bw.append(fl(Numerics._cached_projection(to, fr, hits)))
+        except Exception as e:      # noqa
+            bw.append({'error': type(e).__name__ + ': ' + str(e)[:160]})
+    res['bigweights'] = bw
     res['spectra'] = [spectrum(c) for c in payload.get('spectra', [])]
     res['neutral'] = neutral(payload.get('neutral', []))
     print(json.dumps(res))
